@@ -3,8 +3,9 @@
     configuration [c], a handler script [h : nat -> outcome] and an environment [e] of clock /
     random / select oracles constrained by [env_ok]).  Quantifiers: every configuration, every
     handler script, every environment. *)
-From WM Require Import Base.Prelude Handler.Retry Handler.RetryMonitor Handler.RetryArith Handler.RetryProofs.
-From Coq Require Import QArith.
+From WM Require Import Base.Prelude Handler.Retry Handler.RetryMonitor Handler.RetryArith Handler.RetryProofs
+  Handler.RetryTrunc Handler.RetryConfig Handler.RetrySystem Handler.RetrySystemProofs.
+From Coq Require Import QArith Qminmax.
 Open Scope Z_scope.
 
 (** the handler is invoked 0,1,..,n in order; a successful result is the result of invocation n,
@@ -98,6 +99,63 @@ Theorem C12_backoff_schedule_closed_form : forall c (a : nat -> Z) k,
   cur_at c (S k) = Z.min (a k) (max_interval c).
 Proof. exact cur_at_closed_form. Qed.
 
+(** ... and for an ARBITRARY rational Multiplier >= 1 (products not integral): Go's
+    [Duration(float64(cur)*Multiplier)], modelled as floor on Q, loses < 1 ns per step and a loss
+    is multiplied at every later step, so the interval before the (k+1)-th retry lies within the
+    geometric sum [geom m k] = 1 + m + .. + m^(k-1) below min(Initial x Multiplier^k, MaxInterval)
+    and never above it *)
+Theorem C12_backoff_truncation_bound : forall c, (1 <= mult c)%Q -> 0 <= initial c <= max_interval c ->
+  forall k,
+    (Qmin (inject_Z (initial c) * mult c ^ Z.of_nat k) (inject_Z (max_interval c))
+       - geom (mult c) k <= inject_Z (cur_at c (S k)))%Q
+    /\ (inject_Z (cur_at c (S k))
+        <= Qmin (inject_Z (initial c) * mult c ^ Z.of_nat k) (inject_Z (max_interval c)))%Q.
+Proof. exact cur_at_truncation_bound. Qed.
+
+(** the error sum in closed form: (m - 1) x geom m k = m^k - 1; it is k for m = 1 *)
+Theorem C12_truncation_error_sum : forall (m : Q) k, ~ (m == 0)%Q ->
+  (geom m k * (m - 1) == m ^ Z.of_nat k - 1)%Q.
+Proof. exact geom_closed. Qed.
+Theorem C12_truncation_error_sum_mult_one : forall k, (geom 1 k == inject_Z (Z.of_nat k))%Q.
+Proof. exact geom_one. Qed.
+
+(** configurations the code does not validate (there is no validation in retry.go or in
+    backoff/v3): what the generator does, as coded *)
+(** InitialInterval > MaxInterval: the first wait is the uncapped InitialInterval, then MaxInterval *)
+Theorem C12_config_initial_above_max : forall c, (1 <= mult c)%Q -> 0 <= max_interval c < initial c ->
+  cur_at c 1 = initial c /\ forall k, cur_at c (S (S k)) = max_interval c.
+Proof. exact sched_initial_above_max. Qed.
+(** Multiplier < 0: InitialInterval, then MaxInterval for ever *)
+Theorem C12_config_negative_multiplier : forall c, (mult c < 0)%Q -> 0 <= initial c -> 0 <= max_interval c ->
+  forall k, cur_at c (S (S k)) = max_interval c.
+Proof. exact sched_negative_multiplier. Qed.
+(** Multiplier = 0: after the first wait every retry is made without waiting (interval 0; the
+    negative MaxInterval if that is negative) *)
+Theorem C12_config_zero_multiplier : forall c, (mult c == 0)%Q ->
+  forall k, cur_at c (S (S k)) = if max_interval c <? 0 then max_interval c else 0.
+Proof. exact sched_zero_multiplier. Qed.
+(** 0 < Multiplier <= 1: the intervals shrink geometrically, below the cap *)
+Theorem C12_config_fractional_multiplier : forall c, (0 < mult c)%Q -> (mult c <= 1)%Q ->
+  0 <= initial c <= max_interval c ->
+  forall k, 0 <= cur_at c (S k)
+    /\ (ideal c k - geom (mult c) k <= inject_Z (cur_at c (S k)))%Q
+    /\ (inject_Z (cur_at c (S k)) <= ideal c k)%Q
+    /\ (ideal c k <= inject_Z (max_interval c))%Q.
+Proof. exact sched_fractional_multiplier. Qed.
+(** MaxElapsedTime < 0: every NextBackOff returns Stop, nothing is ever waited for *)
+Theorem C12_config_negative_max_elapsed : forall c h e, max_elapsed c < 0 -> env_ok c h e = true ->
+  Forall (fun it => w_wait it = STOP) (r_waits (retry c h e)).
+Proof. exact retry_negative_max_elapsed. Qed.
+(** and for EVERY configuration (negative intervals, any Multiplier, any factor; no [cfg_ok]):
+    what NextBackOff returned is waited for before the re-invocation; a value <= 0 does not delay.
+    (C12_first_success_wins, C12_attempt_bound*, C12_error_is_last_attempts, C12_hook_sequence,
+    C12_never_invents_success hold for every configuration as well: they have no [cfg_ok].) *)
+Theorem C12_wait_respected_any_config : forall c h e, env_ok c h e = true ->
+  forall it, In it (r_waits (retry c h e)) ->
+    w_prev it <= w_tnb it <= w_twake it
+    /\ (w_ctx it = false -> w_tnb it + w_wait it <= w_twake it).
+Proof. exact retry_wait_respected. Qed.
+
 (** the randomisation interval is tight: every value in [delay_lo, delay_hi] is returned for
     some random number in [0,1) — the membership test of the monitor is not looser than the model *)
 Theorem C12_delay_interval_tight : forall (rf : Q) (cur d : Z),
@@ -146,6 +204,32 @@ Theorem C12_model_accepted : forall c sk h e,
   retry_monitor c sk h (obs_of e (retry c h e)) = true.
 Proof. exact retry_accepted. Qed.
 
+(** N messages concurrently through ONE wrapped handler (Handler/RetrySystem.v: interleaving of
+    per-message steps — first invocation, loop iteration — on a shared clock, any schedule):
+    after any schedule the state of message i is what it reaches alone on the instants of its own
+    steps, whatever the other messages do *)
+Theorem C12_interleaving_independent : forall c hs es sched st i,
+  g_msgs (srun false c hs es st sched) i = mrun c (hs i) (es i) (g_msgs st i) (times_of i sched).
+Proof. exact srun_independent. Qed.
+
+(** ... hence N concurrent messages = N independent runs of [retry]: a message that has returned
+    did what [retry] does for its own script and oracle values (instants from the shared clock),
+    so every theorem above holds per message in the concurrent system *)
+Theorem C12_concurrent_messages_are_independent_runs : forall c hs es sched i r,
+  g_msgs (srun false c hs es sinit sched) i = MDone r ->
+  exists t0 e', In (i, t0) sched /\ e_t0 e' = t0 /\ same_but_times e' (es i) /\ r = retry c (hs i) e'.
+Proof. exact system_runs_are_retry_runs. Qed.
+
+(** the variant with ONE ExponentialBackOff value for all messages ("Reset() before every use",
+    [shared = true]) violates this: a failing second message resets the first one's schedule *)
+Theorem C12_shared_backoff_independence_refuted :
+  exists c hs es sched i r r',
+    g_msgs (srun true c hs es sinit sched) i = MDone r
+    /\ mrun c (hs i) (es i) MInit (times_of i sched) = MDone r'
+    /\ hooks (r_trace r) = [(1, 5); (2, 5); (3, 10)]
+    /\ hooks (r_trace r') = [(1, 5); (2, 10); (3, 20)].
+Proof. exact shared_backoff_not_independent. Qed.
+
 Print Assumptions C12_first_success_wins.
 Print Assumptions C12_attempt_bound.
 Print Assumptions C12_attempt_bound_nonpositive.
@@ -157,11 +241,23 @@ Print Assumptions C12_hook_sequence.
 Print Assumptions C12_backoff_lower_bound.
 Print Assumptions C12_retry_starts_after_wait.
 Print Assumptions C12_backoff_schedule_closed_form.
+Print Assumptions C12_backoff_truncation_bound.
+Print Assumptions C12_truncation_error_sum.
+Print Assumptions C12_truncation_error_sum_mult_one.
+Print Assumptions C12_config_initial_above_max.
+Print Assumptions C12_config_negative_multiplier.
+Print Assumptions C12_config_zero_multiplier.
+Print Assumptions C12_config_fractional_multiplier.
+Print Assumptions C12_config_negative_max_elapsed.
+Print Assumptions C12_wait_respected_any_config.
 Print Assumptions C12_delay_interval_tight.
 Print Assumptions C12_early_exit_only_on_ctx.
 Print Assumptions C12_gives_up_when_context_ends.
 Print Assumptions C12_max_elapsed_gives_up_partial.
 Print Assumptions C12_model_accepted.
+Print Assumptions C12_interleaving_independent.
+Print Assumptions C12_concurrent_messages_are_independent_runs.
+Print Assumptions C12_shared_backoff_independence_refuted.
 
 (** non-vacuity: MaxRetries 3, 5 ms doubling capped at 15 ms, no randomisation; the handler
     fails three times and then returns message 31 *)
@@ -206,3 +302,20 @@ Example C12_max_elapsed_race_witness :
   /\ hooks (r_trace (retry c h e)) = [(1, -1); (2, -1); (3, -1)]
   /\ attempts (r_trace (retry c h e)) = 4%nat.
 Proof. repeat split; vm_compute; reflexivity. Qed.
+
+(** the truncation error is NOT bounded by the number of steps: Initial 3 ns, Multiplier 3/2
+    gives 3,4,6,9,13,19,28 — after 6 steps 28 < 3 x 1.5^6 - 6 = 28.17.. (the geometric sum
+    geom (3/2) 6 = 20.78.. is the bound that holds) *)
+Example C12_truncation_error_exceeds_k :
+  let c := Cfg 8 3 1000000 (3#2) 0 0 true false in
+  map (cur_at c) [1;2;3;4;5;6;7]%nat = [3;4;6;9;13;19;28]
+  /\ (inject_Z (cur_at c 7) < inject_Z (initial c) * mult c ^ 6 - 6)%Q.
+Proof. split; [reflexivity|vm_compute; reflexivity]. Qed.
+
+(** a negative InitialInterval (rf = 0): NextBackOff returns trunc(-3 + rnd) = -2, the interval "grows" to -6: no delay ever *)
+Example C12_negative_initial_interval :
+  let c := Cfg 2 (-3) 10 2 0 0 true false in
+  let e := Env 0 1 0 0 None None (fun k => Sel 0 (Z.of_nat k - 1) (1#2) false 0 1) in
+  env_ok c (fun _ => ([], 7%N)) e = true
+  /\ hooks (r_trace (retry c (fun _ => ([], 7%N)) e)) = [(1, -2); (2, -5)].
+Proof. split; vm_compute; reflexivity. Qed.
